@@ -34,6 +34,13 @@ impl<'a> Toks<'a> {
     pub fn boolean(&mut self) -> bool {
         self.nat() != 0
     }
+    /// an optional trailing natural number (absent = 0)
+    pub fn opt_trailing_nat(&mut self) -> usize {
+        match self.it.next() {
+            Some(t) => t.parse().expect("nat"),
+            None => 0,
+        }
+    }
     pub fn flt(&mut self) -> f32 {
         f32::from_bits(u32::from_str_radix(self.tok(), 16).expect("hex float"))
     }
